@@ -2,6 +2,7 @@ package main
 
 import (
 	"fmt"
+	"os"
 	"strings"
 	"time"
 
@@ -12,7 +13,7 @@ import (
 )
 
 func init() {
-	register("C01", "messages generated from the Spec's own Msg type (tags with key-only/empty/escaped values, server and nick!user@host sources, letter verbs in mixed case and numerics, 0-14 middles with extra spaces and inner colons, optional trailing incl. empty, spaces, ' :' and clean CTCP payloads), rendered by the Lean driver (so the bytes fed to the real ParseLine are the theorem's `render m`), compared field by field with the Spec's `expected m`; plus a not-well-formed stream (wf=0) compared with the model only; non-trivial = well-formed and using tags, a user source, CTCP rewriting, >=3 parameters or extra spaces; distinct by rendered bytes", c01)
+	register("C01", "(b) byte streams with every kind of line ending (LF, CRLF, runs of CR, blank lines, CR and spaces inside lines, a last line without LF before EOF) in reads of 1 / 3 / 7 / 64 / unlimited bytes: what the handlers receive must equal the model's recvFrames of the stream, parsed, in order; (a) messages generated from the Spec's own Msg type (tags with key-only/empty/escaped values, server and nick!user@host sources, letter verbs in mixed case and numerics, 0-14 middles with extra spaces and inner colons, optional trailing incl. empty, spaces, ' :' and clean CTCP payloads), rendered by the Lean driver (so the bytes fed to the real ParseLine are the theorem's `render m`), compared field by field with the Spec's `expected m`; plus a not-well-formed stream (wf=0) compared with the model only; non-trivial = well-formed and using tags, a user source, CTCP rewriting, >=3 parameters or extra spaces; distinct by rendered bytes", c01)
 }
 
 type genMsg struct {
@@ -198,6 +199,11 @@ func genMessage(r *gen.R, wellFormed bool) genMsg {
 }
 
 func c01(c *Ctx) {
+	c01Messages(c)
+	c01Framing(c)
+}
+
+func c01Messages(c *Ctx) {
 	n := c.Pick(12000, 150000)
 	msgs := make([]genMsg, 0, n)
 	reqs := make([]string, 0, n)
@@ -330,6 +336,140 @@ func c01(c *Ctx) {
 				c.SpecFail("spec", fmt.Sprintf("over a connection (maxRead=%d): handler received a different line for %s", maxRead, batch[i].enc), "",
 					"handler saw: "+filtered[i]+" ; Spec expects: "+batch[i].expect,
 					map[string]interface{}{"op": "deliver", "line_hex": drv.H(batch[i].bytes), "maxread": maxRead, "handler_saw": filtered[i], "expected": batch[i].expect})
+				break
+			}
+		}
+	}
+}
+
+// c01Framing: arbitrary byte streams (lines ended by LF, CRLF, several CRs, blank lines, CR and spaces inside lines,
+// a last line without LF before EOF) are cut into lines by the real recv loop and by the model's `recvFrames`;
+// what the handlers receive must be the model's frames, parsed, in order (lines that do not parse are skipped).
+func c01Framing(c *Ctx) {
+	verbs := []string{"PRIVMSG", "NOTICE", "X", "123"}
+	for si := 0; si < c.Pick(6, 60); si++ {
+		var sb strings.Builder
+		n := c.R.Range(5, 120)
+		for i := 0; i < n; i++ {
+			switch c.R.N(10) {
+			case 0:
+				sb.WriteString(c.R.Pick("", " ", "  ", ":", ": ", "@", "@ ", ":a "))
+			default:
+				if c.R.P(1, 3) {
+					sb.WriteString(c.R.Pick(":n!u@h ", ":srv ", "@k=v :n!u@h ", "\r", "\r\r", " "))
+				}
+				v := verbs[c.R.N(len(verbs))]
+				if c.R.P(1, 6) {
+					v = strings.ToLower(v)
+				}
+				sb.WriteString(v)
+				for a := c.R.N(4); a > 0; a-- {
+					sb.WriteString(" " + c.R.Bytes(c.R.Range(1, 6), "abc#\r\t"))
+				}
+				if c.R.Bool() {
+					sb.WriteString(" :" + c.R.Bytes(c.R.N(30), "abc d\r:"))
+				}
+				if c.R.P(1, 40) {
+					sb.WriteString(" :" + strings.Repeat("long ", 1000)) // longer than the read buffer
+				}
+			}
+			sb.WriteString(c.R.Pick("\r\n", "\r\n", "\r\n", "\n", "\r\r\n", "\n\n", "\r\n\r\n", " \r\n", "\n\r"))
+		}
+		partial := ""
+		if c.R.Bool() {
+			partial = "NOTICE me :never terminated"
+		}
+		stream := sb.String()
+		desc := fmt.Sprintf("byte stream of %d bytes (%d pieces, unterminated tail: %v)", len(stream), n, partial != "")
+		c.Journal("C01 framing: " + desc)
+		rec := &recorder{}
+		disc := make(chan struct{}, 1)
+		sess, err := newSession(nil, func(conn *client.Conn) {
+			for _, v := range verbs {
+				conn.HandleFunc(v, func(_ *client.Conn, l *client.Line) { rec.add(encLine(l)) })
+			}
+			conn.HandleFunc(client.DISCONNECTED, func(*client.Conn, *client.Line) { disc <- struct{}{} })
+		})
+		if err != nil {
+			c.Res.Inconclusive++
+			continue
+		}
+		maxRead := []int{0, 1, 3, 7, 64}[c.R.N(5)]
+		sess.srv.SetMaxRead(maxRead)
+		sess.srv.Send(stream)
+		synced := sess.sync(30 * time.Second)
+		sess.srv.Send(partial)
+		time.Sleep(2 * time.Millisecond)
+		sess.srv.EOF()
+		select {
+		case <-disc:
+		case <-time.After(5 * time.Second):
+		}
+		got := rec.list()
+		sess.close()
+		c.Res.Traces++
+		if !synced {
+			c.SpecFail("spec", "framing: "+desc, "", "the client stopped answering after the stream", map[string]interface{}{"op": "frame-stream", "stream_hex": drv.H(stream)})
+			continue
+		}
+		// the model: frames, then parse each
+		fr, err := drv.Run([]string{"frames " + drv.H(stream+partial)})
+		if err != nil || len(fr) != 1 || fr[0] == "bad-op" {
+			fmt.Fprintln(os.Stderr, "corr: driver frames:", err, fr)
+			os.Exit(3)
+		}
+		var frames []string
+		if fr[0] != "_" {
+			for _, h := range strings.Split(fr[0], ",") {
+				if h == "-" {
+					frames = append(frames, "")
+				} else {
+					b, _ := drv.UnH(h)
+					frames = append(frames, b)
+				}
+			}
+		}
+		reqs := make([]string, len(frames))
+		for i, f := range frames {
+			reqs[i] = "parse " + drv.H(f) + " _"
+		}
+		var parsed []string
+		if len(reqs) > 0 {
+			parsed, err = drv.Run(reqs)
+			if err != nil {
+				fmt.Fprintln(os.Stderr, "corr: driver parse:", err)
+				os.Exit(3)
+			}
+		}
+		var want []string
+		for _, p := range parsed {
+			if p == "nil" {
+				continue
+			}
+			cmd, _ := drv.UnH(cmdOfEnc(p))
+			for _, v := range verbs {
+				if strings.EqualFold(cmd, v) {
+					want = append(want, p)
+				}
+			}
+		}
+		c.Res.Evaluations++
+		c.Res.Distribution["framing: lines delivered to handlers"] += len(got)
+		c.Res.Distribution["framing: frames in the model"] += len(frames)
+		tag := fmt.Sprintf("framing/maxread=%d", maxRead)
+		c.Dist("tag:" + tag)
+		if k := tag + "|" + stream; !c.seen[k] {
+			c.seen[k] = true
+			c.Res.Distinct++
+		}
+		rp := map[string]interface{}{"op": "frame-stream", "stream_hex": drv.H(stream), "tail_hex": drv.H(partial), "maxread": maxRead}
+		if len(got) != len(want) {
+			c.Mismatch("framing: "+desc, "frames "+trunc(drv.H(stream), 200), fmt.Sprintf("%d lines delivered", len(want)), fmt.Sprintf("%d lines delivered", len(got)), rp)
+			continue
+		}
+		for i := range got {
+			if got[i] != want[i] {
+				c.Mismatch("framing: "+desc+fmt.Sprintf(", delivered line #%d", i), "frames "+trunc(drv.H(stream), 200), want[i], got[i], rp)
 				break
 			}
 		}
